@@ -9,6 +9,25 @@ package main
 // QueryName's result: a fresh `make` + `copy` of record.Owners, or the internal slice.
 //
 // Unknown shapes are errors, never defaults.
+//
+// Normalisations (DESIGN.md §7):
+//
+//   - "helper under the caller's lock".  An unexported method of NetBIOSNameServer that mentions `.names`,
+//     contains no call on `.mu` at all, is never used as a method value or inside a `go` statement or function
+//     literal, and is called ONLY from methods that
+//     hold the mutex for their whole body (first statement Lock/RLock, second the matching deferred unlock, no
+//     other unlock) or from other such helpers, is not a method of the discipline: its statements run inside
+//     its callers' critical sections.  It is not listed; instead every caller is treated as if the helper's body
+//     stood at the call: the caller touches `.names`, writes if the helper writes, and a value the caller binds
+//     from a helper that returns a record of the map (`record, err := n.find(name)`) is a record reached through
+//     the map, so `record.Status = …` in the caller is a write.  A helper with any caller that does not hold
+//     the lock is listed like every other function (and fails the discipline).
+//   - "fresh copy of the owners".  Canonical form: `owners := make([]net.IP, len(record.Owners));
+//     copy(owners, record.Owners); return owners, …`.  Accepted as the same: `append(E, S...)` — returned
+//     directly or through one variable — where E is a new empty slice (`make([]T, 0[, n])`, `[]T{}`,
+//     `[]T(nil)`) and S is `record.Owners`, `record.Owners[:]` or `record.Owners[:n]` / `[:n:n]` with n =
+//     `len(record.Owners)` (written out, or a variable defined once as that).  Appending to an empty slice
+//     that nobody else holds never shares S's array and yields exactly S's elements.  Any other bound is refused.
 
 import (
 	"fmt"
@@ -72,6 +91,7 @@ func nbtnsLocks(repo string) (string, any, error) {
 		return "", nil, err
 	}
 	var methods []lockMethod
+	var decls []nbtnsDecl
 	queryCopies := -1 // -1 unknown, 0 internal slice, 1 make+copy
 	for _, ent := range entries {
 		fn := ent.Name()
@@ -83,8 +103,16 @@ func nbtnsLocks(repo string) (string, any, error) {
 			return "", nil, err
 		}
 		for _, d := range f.Decls {
-			fd, ok := d.(*ast.FuncDecl)
-			if !ok || fd.Body == nil {
+			if fd, ok := d.(*ast.FuncDecl); ok && fd.Body != nil {
+				decls = append(decls, nbtnsDecl{fn, fd})
+			}
+		}
+	}
+	helpers := nbtnsHelpers(decls)
+	{
+		for _, dcl := range decls {
+			fn, fd := dcl.file, dcl.fd
+			if _, inlined := helpers[fd.Name.Name]; inlined && nbtnsIsServerMethod(fd) != "" {
 				continue
 			}
 			m := lockMethod{Name: fd.Name.Name, File: fn}
@@ -120,6 +148,20 @@ func nbtnsLocks(repo string) (string, any, error) {
 					if len(x.Rhs) == 1 && fromNames(x.Rhs[0]) {
 						if id, ok := x.Lhs[0].(*ast.Ident); ok {
 							recIdents[id.Name] = true
+						}
+					}
+					if len(x.Rhs) == 1 {
+						if h := nbtnsHelperCall(x.Rhs[0], helpers); h != nil && h.returnsRecord {
+							if id, ok := x.Lhs[0].(*ast.Ident); ok {
+								recIdents[id.Name] = true
+							}
+						}
+					}
+				case *ast.CallExpr:
+					if h := nbtnsHelperCall(x, helpers); h != nil {
+						m.TouchesNames = true
+						if h.writes {
+							m.WritesNames = true
 						}
 					}
 				case *ast.RangeStmt:
@@ -213,6 +255,11 @@ func nbtnsLocks(repo string) (string, any, error) {
 					return "", nil, fmt.Errorf("%s: QueryName: final `return owners, type, nil` not found", fn)
 				}
 				switch res := last.Results[0].(type) {
+				case *ast.CallExpr:
+					if !nbtnsFreshCopy(res, fd.Body) {
+						return "", nil, fmt.Errorf("%s: QueryName: result call is not append(<new empty slice>, record.Owners...)", fn)
+					}
+					queryCopies = 1
 				case *ast.SelectorExpr:
 					if res.Sel.Name == "Owners" {
 						queryCopies = 0
@@ -236,6 +283,9 @@ func nbtnsLocks(repo string) (string, any, error) {
 												}
 											}
 										}
+									}
+									if c, ok := x.Rhs[0].(*ast.CallExpr); ok && !made && nbtnsFreshCopy(c, fd.Body) {
+										made, copied = true, true
 									}
 									if !made {
 										// any other definition of the result (e.g. `owners := record.Owners`)
@@ -271,7 +321,7 @@ func nbtnsLocks(repo string) (string, any, error) {
 		return "", nil, fmt.Errorf("no function touching NetBIOSNameServer.names found in %s", dir)
 	}
 	if queryCopies < 0 {
-		return "", nil, fmt.Errorf("method QueryName of NetBIOSNameServer not found")
+		return "", nil, fmt.Errorf("method QueryName of NetBIOSNameServer not found among the functions that reach `.names` (directly, or through a helper that only runs under its callers' lock)")
 	}
 	sort.Slice(methods, func(i, j int) bool { return methods[i].Name < methods[j].Name })
 	var b strings.Builder
@@ -294,4 +344,304 @@ func nbtnsLocks(repo string) (string, any, error) {
 	fmt.Fprintf(&b, "def queryCopies : Bool := %v\n\n", queryCopies == 1)
 	b.WriteString("end Manticore.Gen.NbtnsLocks\n")
 	return b.String(), map[string]any{"methods": methods, "queryCopies": queryCopies == 1}, nil
+}
+
+type nbtnsDecl struct {
+	file string
+	fd   *ast.FuncDecl
+}
+
+type nbtnsHelper struct {
+	writes, returnsRecord bool
+}
+
+// receiver name if fd is declared on (*)NetBIOSNameServer with a named receiver, else ""
+func nbtnsIsServerMethod(fd *ast.FuncDecl) string {
+	if fd.Recv == nil || len(fd.Recv.List) != 1 || len(fd.Recv.List[0].Names) != 1 {
+		return ""
+	}
+	t := fd.Recv.List[0].Type
+	if st, ok := t.(*ast.StarExpr); ok {
+		t = st.X
+	}
+	if id, ok := t.(*ast.Ident); ok && id.Name == "NetBIOSNameServer" {
+		return fd.Recv.List[0].Names[0].Name
+	}
+	return ""
+}
+
+// nbtnsHelperCall: e is `<x>.<helper>(…)` for an inlined helper
+func nbtnsHelperCall(e ast.Expr, helpers map[string]*nbtnsHelper) *nbtnsHelper {
+	c, ok := e.(*ast.CallExpr)
+	if !ok {
+		return nil
+	}
+	s, ok := c.Fun.(*ast.SelectorExpr)
+	if !ok {
+		return nil
+	}
+	return helpers[s.Sel.Name]
+}
+
+// nbtnsHelpers finds the helpers of the normalisation "helper under the caller's lock" (see the file comment).
+func nbtnsHelpers(decls []nbtnsDecl) map[string]*nbtnsHelper {
+	mentions := func(n ast.Node, sel string) bool {
+		found := false
+		ast.Inspect(n, func(x ast.Node) bool {
+			if s, ok := x.(*ast.SelectorExpr); ok && s.Sel.Name == sel {
+				found = true
+			}
+			return true
+		})
+		return found
+	}
+	holdsLock := func(fd *ast.FuncDecl) bool {
+		recv := nbtnsIsServerMethod(fd)
+		if recv == "" || len(fd.Body.List) < 2 {
+			return false
+		}
+		es, ok := fd.Body.List[0].(*ast.ExprStmt)
+		if !ok {
+			return false
+		}
+		kind := muCall(es.X, recv)
+		want := map[string]string{"Lock": "Unlock", "RLock": "RUnlock"}[kind]
+		ds, ok := fd.Body.List[1].(*ast.DeferStmt)
+		if want == "" || !ok || muCall(ds.Call, recv) != want {
+			return false
+		}
+		unlocks := 0
+		ast.Inspect(fd.Body, func(x ast.Node) bool {
+			if c, ok := x.(*ast.CallExpr); ok {
+				if s, ok := c.Fun.(*ast.SelectorExpr); ok && (s.Sel.Name == "Unlock" || s.Sel.Name == "RUnlock") {
+					if _, ok := isSel(s.X, "mu"); ok {
+						unlocks++
+					}
+				}
+			}
+			return true
+		})
+		return unlocks == 1
+	}
+	cand := map[string]*ast.FuncDecl{}
+	count := map[string]int{}
+	for _, d := range decls {
+		count[d.fd.Name.Name]++
+		if nbtnsIsServerMethod(d.fd) != "" && !d.fd.Name.IsExported() && mentions(d.fd.Body, "names") && !mentions(d.fd.Body, "mu") {
+			cand[d.fd.Name.Name] = d.fd
+		}
+	}
+	for name := range cand {
+		if count[name] != 1 {
+			delete(cand, name) // the name is not unique in the package: calls cannot be attributed
+		}
+	}
+	// every use of the name must be a call inside a lock-holding method or another candidate; iterate to a fixpoint
+	for changed := true; changed; {
+		changed = false
+		for name := range cand {
+			ok := true
+			for _, d := range decls {
+				calls, uses := 0, 0
+				ast.Inspect(d.fd.Body, func(x ast.Node) bool {
+					switch y := x.(type) {
+					case *ast.CallExpr:
+						if s, isSel := y.Fun.(*ast.SelectorExpr); isSel && s.Sel.Name == name {
+							calls++
+						}
+					case *ast.SelectorExpr:
+						if y.Sel.Name == name {
+							uses++
+						}
+					case *ast.Ident:
+						if y.Name == name {
+							uses++ // a bare reference (method expression, shadowing): not understood
+						}
+					}
+					return true
+				})
+				if uses != 2*calls { // each call contributes its SelectorExpr and its Sel identifier
+					ok = false
+				}
+				// a call in a `go` statement or inside a function literal does not run under the caller's lock
+				ast.Inspect(d.fd.Body, func(x ast.Node) bool {
+					switch y := x.(type) {
+					case *ast.GoStmt, *ast.FuncLit:
+						ast.Inspect(y, func(z ast.Node) bool {
+							if id, isId := z.(*ast.Ident); isId && id.Name == name {
+								ok = false
+							}
+							return true
+						})
+					}
+					return true
+				})
+				if calls > 0 && !holdsLock(d.fd) && cand[d.fd.Name.Name] == nil {
+					ok = false
+				}
+			}
+			if !ok {
+				delete(cand, name)
+				changed = true
+			}
+		}
+	}
+	out := map[string]*nbtnsHelper{}
+	for name, fd := range cand {
+		h := &nbtnsHelper{}
+		rec := map[string]bool{}
+		fromNames := func(e ast.Expr) bool {
+			if ix, ok := e.(*ast.IndexExpr); ok {
+				e = ix.X
+			}
+			_, ok := isSel(e, "names")
+			return ok
+		}
+		ast.Inspect(fd.Body, func(x ast.Node) bool {
+			switch y := x.(type) {
+			case *ast.AssignStmt:
+				if len(y.Rhs) == 1 && fromNames(y.Rhs[0]) {
+					if id, ok := y.Lhs[0].(*ast.Ident); ok {
+						rec[id.Name] = true
+					}
+				}
+				for _, l := range y.Lhs {
+					if _, isIdent := l.(*ast.Ident); !isIdent {
+						h.writes = true // any assignment through a selector or index inside a helper counts as a write
+					}
+				}
+			case *ast.RangeStmt:
+				if fromNames(y.X) && y.Value != nil {
+					if id, ok := y.Value.(*ast.Ident); ok {
+						rec[id.Name] = true
+					}
+				}
+			case *ast.IncDecStmt:
+				if _, isIdent := y.X.(*ast.Ident); !isIdent {
+					h.writes = true
+				}
+			case *ast.CallExpr:
+				if id, ok := y.Fun.(*ast.Ident); ok && id.Name == "delete" {
+					h.writes = true
+				}
+			}
+			return true
+		})
+		ast.Inspect(fd.Body, func(x ast.Node) bool {
+			if r, ok := x.(*ast.ReturnStmt); ok {
+				for _, res := range r.Results {
+					if id, ok := res.(*ast.Ident); ok && rec[id.Name] || fromNames(res) {
+						h.returnsRecord = true
+					}
+				}
+			}
+			return true
+		})
+		out[name] = h
+	}
+	// a helper that calls a writing helper writes
+	for changed := true; changed; {
+		changed = false
+		for name, fd := range cand {
+			ast.Inspect(fd.Body, func(x ast.Node) bool {
+				if c, ok := x.(*ast.CallExpr); ok {
+					if h := nbtnsHelperCall(c, out); h != nil && h.writes && !out[name].writes {
+						out[name].writes = true
+						changed = true
+					}
+				}
+				return true
+			})
+		}
+	}
+	return out
+}
+
+// nbtnsFreshCopy: `append(E, S...)` with E a new empty slice and S all of <x>.Owners (see the file comment)
+func nbtnsFreshCopy(c *ast.CallExpr, body *ast.BlockStmt) bool {
+	f, ok := c.Fun.(*ast.Ident)
+	if !ok || f.Name != "append" || len(c.Args) != 2 || !c.Ellipsis.IsValid() {
+		return false
+	}
+	empty := false
+	switch e := c.Args[0].(type) {
+	case *ast.CallExpr:
+		if id, ok := e.Fun.(*ast.Ident); ok && id.Name == "make" && len(e.Args) >= 2 {
+			if _, isSlice := e.Args[0].(*ast.ArrayType); isSlice {
+				if bl, ok := e.Args[1].(*ast.BasicLit); ok && bl.Value == "0" {
+					empty = true
+				}
+			}
+		}
+		if at, ok := e.Fun.(*ast.ArrayType); ok && at.Len == nil && len(e.Args) == 1 {
+			if id, ok := e.Args[0].(*ast.Ident); ok && id.Name == "nil" {
+				empty = true
+			}
+		}
+	case *ast.CompositeLit:
+		if at, ok := e.Type.(*ast.ArrayType); ok && at.Len == nil && len(e.Elts) == 0 {
+			empty = true
+		}
+	}
+	if !empty {
+		return false
+	}
+	isLenOwners := func(e ast.Expr) bool {
+		l, ok := e.(*ast.CallExpr)
+		if !ok || len(l.Args) != 1 {
+			return false
+		}
+		lf, ok := l.Fun.(*ast.Ident)
+		if !ok || lf.Name != "len" {
+			return false
+		}
+		_, ok = isSel(l.Args[0], "Owners")
+		return ok
+	}
+	lenVar := func(e ast.Expr) bool { // a variable assigned exactly once in the body, as len(<x>.Owners)
+		id, ok := e.(*ast.Ident)
+		if !ok {
+			return false
+		}
+		defs, good := 0, 0
+		ast.Inspect(body, func(x ast.Node) bool {
+			switch y := x.(type) {
+			case *ast.AssignStmt:
+				for i, l := range y.Lhs {
+					if li, ok := l.(*ast.Ident); ok && li.Name == id.Name {
+						defs++
+						if y.Tok == token.DEFINE && len(y.Lhs) == len(y.Rhs) && isLenOwners(y.Rhs[i]) {
+							good++
+						}
+					}
+				}
+			case *ast.IncDecStmt:
+				if li, ok := y.X.(*ast.Ident); ok && li.Name == id.Name {
+					defs++
+				}
+			case *ast.UnaryExpr:
+				if li, ok := y.X.(*ast.Ident); ok && y.Op == token.AND && li.Name == id.Name {
+					defs++
+				}
+			}
+			return true
+		})
+		return defs == 1 && good == 1
+	}
+	full := func(e ast.Expr) bool { return e == nil || isLenOwners(e) || lenVar(e) }
+	switch s := c.Args[1].(type) {
+	case *ast.SelectorExpr:
+		return s.Sel.Name == "Owners"
+	case *ast.SliceExpr:
+		if _, ok := isSel(s.X, "Owners"); !ok {
+			return false
+		}
+		if s.Low != nil {
+			if bl, ok := s.Low.(*ast.BasicLit); !ok || bl.Value != "0" {
+				return false
+			}
+		}
+		return full(s.High) && full(s.Max)
+	}
+	return false
 }
